@@ -2,11 +2,11 @@
    Only ExtrOcamlBasic is used: bool, option, unit, list, prod, sumbool map to
    OCaml's; positive/N/Z/nat stay the extracted inductive types. *)
 From Coq Require Extraction ExtrOcamlBasic.
-From PV Require Import Base.Common Model.LabelScope Model.Syntax Model.VarScope.
+From PV Require Import Base.Common Model.LabelScope Model.Syntax Model.VarScope Proofs.VarScopeProofs.
 
 Extraction Language OCaml.
 Separate Extraction
   N.add N.mul N.div_eucl N.eqb Z.add Z.mul Z.of_N Z.to_N Z.eqb
   LabelScope.scan_program LabelScope.spec_program
-  VarScope.an_program VarScope.spec_program
+  VarScope.an_program VarScope.spec_program VarScopeProofs.once VarScopeProofs.events
   Syntax.body_codes Syntax.spec_body Syntax.lint_body Syntax.lint_spec_body.
